@@ -3,3 +3,11 @@ package main
 import "strconv"
 
 func itoa(i int) string { return strconv.Itoa(i) }
+
+func sortStrings(s []string) {
+	for i := 1; i < len(s); i++ {
+		for j := i; j > 0 && s[j] < s[j-1]; j-- {
+			s[j], s[j-1] = s[j-1], s[j]
+		}
+	}
+}
